@@ -33,8 +33,8 @@ def gen_scenario(rng, component=None, kinds=('int', 'str', 'str', 'tuple', 'fd')
         else:
             problem = dict(type='graph', spec=gen_graph_spec(rng, kinds=kinds), rep=rng.choice(('next_state', 'det', 'uniform', 'dsp')))
         params = dict(tie=rng.choice(('random', 'random', 'lifo')), rao=True)
-        if comp == 'astar' and params['tie'] != 'random':
-            params['rao'] = True
+        if comp == 'astar' and params['tie'] == 'random' and rng.random() < 0.4:
+            params['rao'] = False       # the seed then only serves the random tie-breaking
     elif comp in ('bpi', 'ga', 'rollout_pomdp'):
         if rng.random() < 0.35:
             problem = dict(type='domain', name=rng.choice(POMDP_DOMAINS))
